@@ -38,6 +38,9 @@ MUTANTS = [
     ("double-key-fast-path-back", R + "append_map.go", "	if t.K.T == tDOUBLE {", "	if t.K.T == tDOUBLE && t.V.T == tSTRUCT {", ["C02", "C01"]),
     ("binary-map-value-fast-path-back", R + "append_map.go", "	if t.V.Tag == defs.T_binary {", "	if t.V.Tag == defs.T_binary && t.K.T == tSTRING {", ["C02", "C01"]),
     ("recursive-container-check-removed", D + "types.go", "	if def == \"\" && isRecursiveContainer(vt, nil) {", "	if def == \"\" && vt.Kind() == reflect.Slice && isRecursiveContainer(vt, nil) {", ["C13"]),
+    ("string-field-length-16-bit", R + "append.go", "				s := *((*string)(p))\n				b = appendUint32(b, uint32(len(s)))", "				s := *((*string)(p))\n				b = appendUint32(b, uint32(uint16(len(s))))", ["C02", "C01"]),
+    ("list-count-16-bit", R + "append_list.go", "	n := uint32(h.Len)", "	n := uint32(uint16(h.Len))", ["C02", "C01"]),
+    ("map-count-16-bit", R + "append_map.go", "		n = uint32(maplen(*(*unsafe.Pointer)(p)))", "		n = uint32(uint16(maplen(*(*unsafe.Pointer)(p))))", ["C02", "C04"]),
     ("anon-struct-qualifier-not-consumed", D + "types.go", "		/* update parsing position */\n		*i = sp\n		return true, nil", "		return true, nil", ["C12"]),
     ("anon-struct-keyword-check-removed", D + "types.go", "		return !isTypeKeyword(*tv), nil", "		return true, nil", ["C13"]),
     ("nested-pointer-check-removed", D + "types.go", "		if !allowPtrs {\n			return nil, EType(vt, \"nested pointer is not allowed\")\n		}", "		if !allowPtrs && vt.Elem().Kind() == reflect.Ptr {\n			return nil, EType(vt, \"nested pointer is not allowed\")\n		}", ["C13"]),
